@@ -2,6 +2,11 @@
    L1 (all four layout filters, all options): regenerated mutation-site inventory + abstract run theorem.
    L2/L3 (exact models): strip_whitespace, use_space_around_operators, reindent preserve the
    non-whitespace leaves; the serializer is characterised exactly. *)
+(* source pins: the functions of /repo the hand-written models in this file's cone mirror have the normalised AST they
+   were written from (tools/regen/gen_srcpins.py; a changed function breaks its Gen/Pin_*.v and this file with it) *)
+From SqlModel.Gen Require LexPins.   (* the scan loop, is_keyword, consume and the class-level state of sqlparse/lexer.py have the pinned shape *)
+From SqlModel.Gen Require Pin_filters_stripws Pin_filters_spaces Pin_filters_serializer Pin_filters_reindent Pin_filters_aligned Pin_filters_others_module Pin_api_glue Pin_formatter_module Pin_sql_tree.
+From SqlModel.Inst Require PassTabOk.   (* the grouping tables and driver pins of Group/Passes.v equal the ones regenerated from the source *)
 From SqlModel Require Import Base PyStr Node Inv.
 From SqlModel.Filters Require Import Sites SitesFacts StripWs Spaces Serializer StripWsFacts SpacesFacts
      SerializerFacts SerializerSpec SerializerSpecFacts Reindent ReindentSpec ReindentFacts.
